@@ -269,7 +269,7 @@ def write_items(path, setup, items):
             fh.write("#ITEM %d %s\n%s\n#END\n" % (k, mode, text))
 
 
-OUT_ITEM = re.compile(r"^#(\S+)$")
+OUT_ITEM = re.compile(r"^#(\S+)(?: \d+)?$")
 
 
 def run_items(b, exe, d, name, setup, items, item_ms=3000, timeout=240):
@@ -428,8 +428,8 @@ def check(rep, tier, seed):
         items, meta = [], []
         for kind, text in part:
             text = text.replace("\n#END", "\n #END").replace("#ITEM ", "# ITEM ")
-            mode = "read" if len(items) % 3 else ("load" if len(items) % 2 else "eval")
-            if mode == "eval":
+            mode = "read" if len(items) % 3 else ("load" if len(items) % 2 else "evalscratch")
+            if mode == "evalscratch":
                 text = "(quote %s)" % text if rng.random() < 0.5 else text
             items.append((mode, text))
             meta.append(("reader-" + mode, kind))
@@ -437,7 +437,11 @@ def check(rep, tier, seed):
     fin = malformed_forms(rng, nform)
     for i in range(0, len(fin), 1500):
         part = fin[i:i + 1500]
-        files.append(("evaluator", [imports], [("eval", t.replace("#ITEM ", "# ITEM ")) for _, t in part], [("evaluator", k) for k, _ in part]))
+        files.append(("evaluator", [imports], [("evalscratch", t.replace("#ITEM ", "# ITEM ")) for _, t in part], [("evaluator", k) for k, _ in part]))
+
+    only = os.environ.get("VERIF_C01_FAMILIES")
+    if only:
+        files = [f for f in files if f[0] in only.split(",")]
 
     def run_file(iff):
         i, (fam, setup, items, meta) = iff
@@ -474,7 +478,8 @@ def check(rep, tier, seed):
             if san:
                 err = san["kind"].replace("AddressSanitizer: ", "").split(" on ")[0].split(" ")[0]
                 frames = [f for f in san["frames"] if not f.startswith("__")][:2]
-                sig = {"check": "sanitizer", "error": err, "family": f2, "name": nm, "frames": frames}
+                sig = {"check": "sanitizer", "error": err, "family": f2, "name": nm, "frames": frames,
+                       "in_bignum_code": any(f.startswith(("sexp_bignum", "sexp_copy_bignum")) for f in san["frames"][:6])}
             elif ev.get("heapcheck"):
                 sig = {"check": "heap-invariant", "family": f2, "name": nm, "mode": ev["heapcheck"][0].split()[1]}
             else:
